@@ -806,7 +806,9 @@ def prod(a, *args, **kwargs):
 
 @implements(np.var)
 def var(a, *args, **kwargs):
-    return np.var._implementation(np.asarray(a), *args, **kwargs) * a.units**2
+    # the unit first: a refused unit must not leave numbers in an out= buffer
+    ret_units = a.units**2
+    return np.var._implementation(np.asarray(a), *args, **kwargs) * ret_units
 
 
 @implements(np.trace)
